@@ -152,7 +152,8 @@ def gen_host(rng, prog, faults):
                 res = None if (rng.chance(1, 6) if faults else rng.chance(1, 12)) else rng.below(90)
                 batch.append((i, res))
             acts.append(batch)
-    acts += ["S", "S"]
+    # one internal wake-up is delivered per step: after the last answer every await still ahead may take a step of its own
+    acts += ["S"] * (2 + sum(1 for e in prog if e[0] in ("O", "M")))
     return acts
 
 
@@ -493,11 +494,12 @@ def trace_oracle(prog, acts, trace, known):
     if len(awaited) != len(set(awaited)):
         known.add("O3-second-await-of-an-order-hangs")
         awaits_cancelled = True
-    if len(trace) >= 3 and acts[-2:] == ["S", "S"] and not awaits_cancelled:
-        last = trace[-2:]
+    quiet = 2 + sum(1 for e in prog if e[0] in ("O", "M"))
+    if len(trace) > quiet and acts[-quiet:] == ["S"] * quiet and not awaits_cancelled:
+        last = trace[-quiet:]
         if all(t.get("r") == "suspended" and not t["pending"] for t in last) and all(i in answered for i, _ in reported):
-            return ("lost wake-up: every order handed to the host has been answered, yet two further steps both "
-                    "report Suspended with nothing pending")
+            return ("lost wake-up: every order handed to the host has been answered, yet %d further steps (one per await of "
+                    "the program, plus two) all report Suspended with nothing pending" % quiet)
     return None
 
 
@@ -543,6 +545,8 @@ def run(chk):
                  ["S", "S", [(2, 20), (1, None)], "S", "S", [(3, 30)], "S", "S"],
                  ["S", [(3, 30), (2, 20), (1, 10)], "S", "S", "S", "S"],
                  ["S", [(1, None)], "S", [(2, None)], "S", [(9, 1), (1, 5)], "S", "S"]]
+        hosts = [h + ["S"] * 5 for h in hosts]
+        cases = [(pr, h + ["S"] * 5) for pr, h in cases]
         for n in range(1, depth + 1):
             for prog in itertools.product(evs, repeat=n):
                 if not sensible(prog):
